@@ -115,6 +115,7 @@ int tr_open_sim(void *sock)
 	Peer &p = *(Peer *)sock;
 	sim_sched_point();
 	p.open_count++;
+	p.wait_returned_success = false; // a reconnect lies between the wait and the next query
 	p.started = true;
 	p.stopping = false;
 	sim_log(EV_IO, (1u << 8) | (unsigned)p.si, p.open_count);
@@ -139,9 +140,16 @@ int tr_open_sim(void *sock)
 			W.ctx.count("probe_expiry_band_at_open");
 		}
 	}
+	if (p.pending_downgrade && sim_now_ns() != p.trigger_ns)
+		W.ctx.viol("C13", "downgrade-reconnect-delayed", "C13:trigger:reconnect-not-immediate",
+			   "socket %d reconnected %llu ms after a version downgrade trigger instead of at once", p.si,
+			   (unsigned long long)((sim_now_ns() - p.trigger_ns) / 1000000));
 	std::string outcome = "ok";
 	uint64_t slow_s = 0;
-	if (p.oi < p.opens.size()) {
+	if (sim_now_ns() < p.down_until) {
+		outcome = "fail";
+		W.ctx.count("fault_open_unreachable");
+	} else if (p.oi < p.opens.size()) {
 		const J &o = p.opens[p.oi++];
 		if (o.t == J::STR)
 			outcome = o.str();
@@ -157,6 +165,11 @@ int tr_open_sim(void *sock)
 		enum sim_wake_reason r = sim_block(SIM_W_IO, &p, sim_now_ns() + slow_s * SIM_NS, 1);
 		if (r == SIM_CANCELLED)
 			sim_cancel_point();
+	}
+	cache_enter_clean_if_due(W, p);
+	if (sim_steps() > W.soft_steps && !W.truncate) {
+		W.truncate = true;
+		sim_wake(SIM_W_USER, &W);
 	}
 	if (outcome != "ok") {
 		W.ctx.count("fault_open_fail");
@@ -287,6 +300,7 @@ int tr_send_sim(const void *sock, const void *pdu, const size_t len, const time_
 	if (const J *f = fault_for(p, "send", k)) {
 		std::string kind = f->gets("kind", "err");
 		fault_fired(W, p, "send_" + kind);
+		p.wait_returned_success = false; // the poll was attempted in time; the transport refused it
 		return kind == "intr" ? TR_INTR : kind == "wouldblock" ? TR_WOULDBLOCK : TR_ERROR;
 	}
 	if (p.peer_closed && p.inq.empty()) {
@@ -383,7 +397,9 @@ void status_cb(const struct rtr_mgr_group *group, enum rtr_mgr_status status, co
 	W->ctx.count("status_cb");
 	W->note("status group=%u status=%d sock=%d state=%d", group->preference, (int)status, si, st);
 	sim_log(EV_CB, ((uint64_t)group->preference << 16) | ((uint64_t)status << 8) | (uint64_t)(si + 1), (uint64_t)(st + 1));
-	digest(W->dig_states, ((uint64_t)group->preference << 24) | ((uint64_t)status << 16) | ((uint64_t)(si + 1) << 8) | (uint64_t)(st + 1));
+	// socket state sequence only: the group status seen here depends on how the starting thread and the new socket
+	// thread interleave, not on the byte stream
+	digest(W->dig_states, ((uint64_t)(si + 1) << 8) | (uint64_t)(st + 1));
 	if (si >= 0 && st == RTR_SHUTDOWN)
 		W->peers[(size_t)si].stopping = true;
 	if (si >= 0)
@@ -480,7 +496,15 @@ static void oracle_on_query_locked(World &W, Peer &p, Exchange &x)
 	W.note("query s%d %s v%d sess=%u serial=%u | belief has=%d sess=%u serial=%u ver=%d maybe=%d", si, x.qtype == 2 ? "RESET" : "SERIAL", x.qver, x.qsession,
 	       x.qserial, b.has_session, b.session, b.serial, b.version, b.maybe_reset);
 	// ---- C13: version of the query
-	if (x.qver != b.version) {
+	if (p.may_downgrade && x.qver == b.version - 1)
+		b.version = x.qver;
+	p.may_downgrade = false;
+	if (x.qver != b.version && p.pending_downgrade && x.qver == b.version + 1) {
+		const char *trig = p.pending_downgrade == 2 ? "hangup-before-session" : "unsupported-version-report";
+		W.ctx.viol("C13", std::string("trigger-ignored-") + trig, std::string("C13:trigger-ignored:") + trig,
+			   "socket %d: the licensed downgrade trigger '%s' occurred but the next query still carries version %d", si, trig, x.qver);
+		b.version = x.qver;
+	} else if (x.qver != b.version) {
 		W.ctx.viol("C13", x.qver > b.version ? "version-raised" : "version-unlicensed-change",
 			   x.qver > b.version ? "C13:query:version-raised" : "C13:query:version-lowered-without-trigger",
 			   "socket %d sent a query with version %d, negotiated version is %d", si, x.qver, b.version);
@@ -554,6 +578,7 @@ static void oracle_on_query_locked(World &W, Peer &p, Exchange &x)
 		p.wait_returned_success = false;
 	}
 	p.open_since_query = false;
+	p.pending_downgrade = 0;
 	x.at_query = b;
 	x.base_pfx = W.model_pfx[(size_t)si];
 	x.base_spki = W.model_spki[(size_t)si];
@@ -588,6 +613,9 @@ void check_error_report(World &W, Peer &p, Exchange &x, const Walk &w, const Byt
 				   p.si);
 		return;
 	}
+	if (w.why == "version" && writable && (reports.empty() || get16(&reports[0][2]) != 8))
+		W.ctx.viol("C13", "wrong-version-not-refused", "C13:version:no-code-8-report",
+			   "socket %d received a PDU whose version differs from the negotiated one but did not answer with an Unexpected-Protocol-Version report", p.si);
 	if (reports.empty()) {
 		if (writable)
 			W.ctx.viol("C14", "report-missing", "C14:report:missing:" + w.why, "socket %d detected '%s' at stream offset %zu but sent no Error Report", p.si,
@@ -748,6 +776,14 @@ void sync_exit_locked(World &W, int si, int rc)
 			b.retry = sock.retry_interval;
 			b.expire = sock.expire_interval;
 		}
+		// C08 presupposes that what the client accepted during the fault phase was honest: a response that is
+		// well-formed but does not carry the cache's real data (e.g. an extra End of Data in the middle) leaves a wrong
+		// base for later deltas that no client can detect
+		if (!(ap == p.data && as == (b.version >= 1 ? p.keys : std::set<SpkiRec>())) && !p.tainted) {
+			p.tainted = true;
+			W.ctx.count("probe_accepted_response_not_cache_state");
+		} else if (ap == p.data && as == (b.version >= 1 ? p.keys : std::set<SpkiRec>()))
+			p.tainted = false;
 		if (p.clean && ap == p.data && as == (b.version >= 1 ? p.keys : std::set<SpkiRec>()) && !p.converged) {
 			p.converged = true;
 			p.t_converged = sim_now_ns();
@@ -805,15 +841,23 @@ void sync_exit_locked(World &W, int si, int rc)
 			if (w.err_code == 4 && w.err_ver < b.version && w.err_ver >= 0) {
 				b.version = w.err_ver; // C13 trigger: Unsupported-Version report carrying a lower supported version
 				p.pending_downgrade = 1;
+				p.trigger_ns = sim_now_ns();
 				W.ctx.count("probe_downgrade_code4");
 			}
 		} else if (w.kind == WK_INCOMPLETE && w.why == "closed" && from == 0 && p.consumed == 0 && !x.at_query.has_session && faults_now == 0 &&
 			   b.version > 0 && x.bytes.empty()) {
 			b.version -= 1; // C13 trigger: cache hung up without answering before any session exists
-			p.pending_downgrade = 1;
+			p.pending_downgrade = 2;
+			p.trigger_ns = sim_now_ns();
 			W.ctx.count("probe_downgrade_hangup");
 		}
-		if (w.downgraded) {
+		else if (w.kind == WK_INCOMPLETE && w.why == "closed" && !x.at_query.has_session && b.version > 0 && faults_now == 0) {
+			// the cache hung up after sending something that is not an answer (e.g. only a Serial Notify, or a fragment):
+			// the statement neither demands nor forbids the downgrade here
+			p.may_downgrade = true;
+			W.ctx.count("probe_hangup_after_non_answer");
+		}
+		if (w.downgraded && p.consumed >= from + 8) { // the client has seen the first header of the connection
 			b.version = w.version_after;
 			W.ctx.count("probe_downgrade_first_pdu");
 		}
@@ -829,6 +873,33 @@ void sync_exit_locked(World &W, int si, int rc)
 		sim_wake(SIM_W_USER, &W);
 	}
 	check_others_untouched(W, si, allp, alls);
+	// C01 (W2): validation on the trie shaped by this conversation agrees with RFC 6811 over the enumerated contents
+	{
+		PfxModel m;
+		m.recs = allp;
+		Rng q(sim_mix64((uint64_t)x.id * 7919 + (uint64_t)si));
+		std::vector<PfxRec> pool(allp.begin(), allp.end());
+		for (int k = 0; k < 6 && !pool.empty(); k++) {
+			PfxRec r = pool[q.below(pool.size())];
+			int w2 = r.width();
+			if (r.len > w2)
+				continue;
+			int ql = q.chance(400) ? r.len : (int)q.range(r.len, w2);
+			u128 rnd = ((u128)q.next() << 64) | q.next();
+			u128 addr = PfxRec::mask(r.addr | (r.len < 128 ? (rnd >> r.len) : 0), ql, r.fam);
+			uint32_t asn = q.chance(600) ? r.asn : (uint32_t)(64500 + q.below(6));
+			lrtr_ip_addr ip;
+			to_lrtr_addr(r.fam, addr, &ip);
+			enum pfxv_state res;
+			if (rtr_mgr_validate(W.conf, asn, &ip, (uint8_t)ql, &res) == PFX_SUCCESS) {
+				int want = m.validate(asn, r.fam, addr, ql);
+				W.ctx.count("world_validations");
+				if ((int)res != want && w.domain_ok && !W.hostile)
+					W.ctx.viol("C01", "world-validate", "C01:world:state", "after synchronisation: route /%d AS%u validates as %d, RFC 6811 over the enumerated table says %d",
+						   ql, asn, (int)res, want);
+			}
+		}
+	}
 	// C09 / C10 (W2): the callback log restricted to this source equals its records
 	if (W.plan["cfg"].geti("callbacks", 1)) {
 		if (of_src(W.mirror_pfx, si) != ap) {
@@ -1089,7 +1160,10 @@ void run_world(const J &plan, RunCtx &ctx)
 					all_conv = false;
 					if (p.t_clean + bound > deadline)
 						deadline = p.t_clean + bound;
-					if (now > p.t_clean + bound) {
+					if (now > p.t_clean + bound && p.tainted) {
+						ctx.count("c08_not_judged_dishonest_history");
+						p.converged = true;
+					} else if (now > p.t_clean + bound) {
 						ctx.viol("C08", "no-reconvergence", "C08:liveness:not-converged",
 							 "socket %d: %llu s after the cache started answering correctly again the client is in state %d with %zu/%zu prefix "
 							 "records of that cache (cache has %zu) - bound was %llu s",
